@@ -339,7 +339,7 @@ def build(tier, mutate=None):
 CANARIES = [
     ("error check dropped", {PROTO: lambda s: s.replace('    if TLV.kTLVType_Error in tlv_dict:\n        error_handler(tlv_dict[TLV.kTLVType_Error], f"step {expected_state}")', "    pass")}, lambda n: n.startswith("verify-M4")),
     ("backoff mapped to busy", {PROTO: lambda s: s.replace("    if error == TLV.kTLVError_Backoff:\n        raise BackoffError(stage)", "    if error == TLV.kTLVError_Backoff:\n        raise BusyError(stage)")}, lambda n: n.startswith("setup-M2")),
-    ("state check dropped", {PROTO: lambda s: s.replace("    if actual_state != expected_state:", "    if False:")}, lambda n: n.startswith("setup-M6")),
+    ("state check dropped", {PROTO: lambda s: s.replace("    if actual_state is not None and actual_state != expected_state:", "    if False:")}, lambda n: n.startswith("setup-M6")),
     ("ip remove-pairing ignores errors", {IPP: lambda s: s.replace('            raise UnknownError("Remove pairing failed: unknown error")', "            pass")}, lambda n: n.startswith("ip/remove")),
 ]
 
